@@ -2,6 +2,7 @@ import SamplyModel.Lemmas.ChunkCache
 import SamplyModel.Lemmas.ChunkCacheIface
 import SamplyModel.Lemmas.ChunkCacheConc
 import SamplyModel.Lemmas.ChunkCacheShared
+import SamplyModel.Lemmas.ChunkCacheCover
 /-!
 # C13 — chunk-cached file access returns exactly the underlying file's bytes
 
@@ -247,6 +248,46 @@ theorem C13_driver_source (g : C13.Gen) :
     (C13.fileSlice g 0 g.len).length = g.len ∧ Faithful (C13.fileSlice g 0 g.len) (C13.src g) ∧
     (g.badHi = 0 → SourceOk (C13.fileSlice g 0 g.len) (C13.src g)) :=
   ⟨C13.fileSlice_length g 0 g.len, C13.src_faithful g, C13.src_ok g⟩
+
+/-- **"Succeeds whenever the source does", with a failing source.** If the source is monotone (having
+delivered a range it delivers every sub-range: any deterministic source that fails exactly on the requests
+touching some set of bad bytes) then, once a range read has succeeded, every later range read inside that range
+succeeds with the file's bytes — whatever calls were made before, in between and whatever the source refuses
+elsewhere: the cache never turns a failure of the source on *other* bytes into a failure of bytes it has
+delivered before. (`F.length + chunk ≤ 2^64`: for a file within one chunk of `2^64` the saturating
+`round_up_to_multiple` plans a read up to EOF, past the boundary where the earlier buffer ended.) -/
+theorem C13_total_after_success (c : Cfg) (F : List UInt8) (hc : 0 < c.chunk)
+    (hsz2 : F.length + c.chunk ≤ U64) (hf : Faithful F c.src) (hmono : SrcMono c.src)
+    (ops₁ ops₂ : List Op) (o n : Nat) (bs : List UInt8)
+    (hprev : (readBytesAt c (run c F.length ops₁) o n).2 = .ok bs)
+    (o' n' : Nat) (h1 : o ≤ o') (h2 : o' + n' ≤ o + n) :
+    (readBytesAt c (run c F.length (ops₁ ++ .read o n :: ops₂)) o' n').2 = .ok (slice F o' n') := by
+  by_cases hn' : n' = 0
+  · subst hn'; simp [readBytesAt, slice_zero]
+  have hsz : F.length < U64 := by omega
+  obtain ⟨i1, j1, _⟩ := run_inv2 c F hc hsz2 hf hmono ops₁ _ (inv_init F) (inv2_init c F)
+  have hstep := step_cover c F hc hsz2 hmono _ i1 j1 (.read o n)
+  have i2 := (step_spec c F hc hsz hf _ i1 (.read o n)).1
+  obtain ⟨j2, _, hcov⟩ := hstep
+  have hrun : run c F.length (ops₁ ++ .read o n :: ops₂) =
+      ops₂.foldl (fun st op => (step c st op).1) (step c (run c F.length ops₁) (.read o n)).1 := by
+    simp [run, List.foldl_append]
+  have hcov2 : Covered (step c (run c F.length ops₁) (.read o n)).1 o (o + n) := by
+    have hcov' : okCover (.read o n) (readBytesAt c (run c F.length ops₁) o n).2
+        (readBytesAt c (run c F.length ops₁) o n).1 := hcov
+    rw [hprev] at hcov'
+    simp only [okCover] at hcov'
+    rcases hcov' with h0 | h
+    · omega
+    · exact h
+  obtain ⟨i3, j3, mono⟩ := run_inv2 c F hc hsz2 hf hmono ops₂ _ i2 j2
+  rw [hrun]
+  obtain ⟨idx, br, hbr, c1, c2⟩ := mono _ _ hcov2
+  exact readBytesAt_covered c F hc hsz2 hf hmono _ i3 j3 o' n' (by omega) ⟨idx, br, hbr, by omega, by omega⟩
+
+/-- the harness's byte source (fails exactly on the requests touching `[badLo, badHi)` or reaching past the
+end) is monotone, so `C13_total_after_success` applies to the model runs that are compared with the code -/
+theorem C13_driver_source_mono (g : C13.Gen) : SrcMono (C13.src g) := C13.src_mono g
 
 /-! ### Concurrent readers: every schedule of the calls' atomic sections
 
@@ -539,3 +580,21 @@ example :
     (xstep c s1 (.view (.vread (some (U64 - 1, 5)) [(1, 1)] 0 1))).2 = .panic ∧
     (xstep c s1 (.view (.vread (some (U64 - 1, 5)) [] 1 1))).2 = .err .discarded := by
   decide
+
+/-- `C13_total_after_success` on real bytes: a source that refuses every request touching byte 17; the read
+`[10, 14)` succeeds (buffer `[8, 16)`), afterwards `[12, 19)` fails (it needs `[12, 20)`), and the sub-range
+`[11, 13)` of the first read still succeeds. The plain source over a file is monotone. -/
+example :
+    let c : Cfg := ⟨8, fun o n => if o ≤ 17 ∧ 17 < o + n then none else srcOf C13_legacyFile o n⟩
+    let s1 := (readBytesAt c (St.init 20) 10 4).1
+    (readBytesAt c (St.init 20) 10 4).2 = .ok [11, 12, 0, 14] ∧
+    (readBytesAt c s1 12 7).2 = .err .source ∧ (readBytesAt c (readBytesAt c s1 12 7).1 11 2).2 = .ok [12, 0] := by
+  decide
+
+example (F : List UInt8) : SrcMono (srcOf F) := by
+  intro o n o' n' h h1 h2
+  simp only [srcOf] at h ⊢
+  split at h
+  · have : o' + n' ≤ F.length := by omega
+    simp [this]
+  · simp at h
